@@ -8,6 +8,7 @@ import (
 	"os"
 	"strings"
 	"sync"
+	"syscall"
 	"testing"
 	"time"
 
@@ -80,6 +81,10 @@ func TestC13(t *testing.T) {
 	for i := 0; i < r.Pick(4, 20); i++ {
 		cases = append(cases, mon.CaseSpec{Name: "opts/ws-handler-on-own-https", Spec: spec{Kind: "wshandler"}})
 	}
+	for i := 0; i < r.Pick(48, 2400); i++ {
+		sp := spec{Kind: "closerace", Socks: 1, Protos: []string{protoNames[i%len(protoNames)]}, Sides: []string{[]string{"listen", "dial"}[(i/len(protoNames))%2]}, Yield: rnd.Intn(2) == 0}
+		cases = append(cases, mon.CaseSpec{Name: "closerace/" + sp.Protos[0], Spec: sp})
+	}
 	r.Run(cases, func(c *mon.Case) {
 		sp := c.Spec.(spec)
 		if sp.Yield {
@@ -95,6 +100,8 @@ func TestC13(t *testing.T) {
 			runOpts(c, sp)
 		case "wshandler":
 			runWSHandler(c, sp)
+		case "closerace":
+			runCloseRace(c, sp)
 		}
 	})
 }
@@ -127,12 +134,13 @@ type lifeMon struct {
 	next map[int]string
 	plan map[int][]string // per socket: actions for successive new pipes
 
-	slowCallbacks int // Attached callbacks that closed their pipe and then kept running past the reconnect time
-	idHeldChecks  int // Detached callbacks in which the allocator was asked whether the id is still reserved
+	slowAdd       chan struct{} // signalled when a "slow-add" pipe has been accepted by the protocol and AddPipe has not returned yet
+	slowCallbacks int           // Attached callbacks that closed their pipe and then kept running past the reconnect time
+	idHeldChecks  int           // Detached callbacks in which the allocator was asked whether the id is still reserved
 }
 
 func newLifeMon(c *mon.Case) *lifeMon {
-	return &lifeMon{c: c, recs: map[mangos.Pipe]*pipeRec{}, live: map[uint32]*pipeRec{}, next: map[int]string{}, plan: map[int][]string{}}
+	return &lifeMon{c: c, recs: map[mangos.Pipe]*pipeRec{}, live: map[uint32]*pipeRec{}, next: map[int]string{}, plan: map[int][]string{}, slowAdd: make(chan struct{}, 4)}
 }
 
 func (m *lifeMon) setNext(sock int, action string) { m.mu.Lock(); m.next[sock] = action; m.mu.Unlock() }
@@ -290,6 +298,14 @@ func (w *recProto) AddPipe(pp mangos.ProtocolPipe) error {
 		return mangos.ErrClosed
 	}
 	err := w.ProtocolBase.AddPipe(pp)
+	if err == nil && rec.action == "slow-add" {
+		// a protocol whose AddPipe takes a while to return after it has accepted the pipe
+		select {
+		case m.slowAdd <- struct{}{}:
+		default:
+		}
+		time.Sleep(3 * time.Millisecond)
+	}
 	if err == nil && rec.action == "xdrop-at-once" {
 		// the protocol's receiver is already failing on the dead connection and closing the pipe:
 		// stretch the moment between "protocol accepted" and "core marks the pipe added"
@@ -608,6 +624,58 @@ func runVT(c *mon.Case, sp spec) {
 	c.Sig("vt|%v|%v|%v", sp.Protos, sp.Sides, trace)
 }
 
+// runCloseRace: Socket.Close lands while a new connection is inside the protocol's AddPipe (the
+// protocol has accepted it, the call has not returned yet).  Whichever way the race goes, a pipe that
+// is reported Attached is reported Detached, the protocol is told of its departure, and the
+// connection is closed by the library.
+func runCloseRace(c *mon.Case, sp spec) {
+	m := newLifeMon(c)
+	w := &recProto{ProtocolBase: protoCtors[sp.Protos[0]](), m: m, sock: 0}
+	wrappedSocks.Store(fmt.Sprintf("%p/%d", m, 0), true)
+	s := protocol.MakeSocket(w)
+	name := hx.Uniq("c13r")
+	c.Cleanup(func() { s.Close(); vt.Forget(name); wrappedSocks.Delete(fmt.Sprintf("%p/%d", m, 0)) })
+	s.SetPipeEventHook(m.hook(0))
+	s.SetOption(mangos.OptionReconnectTime, time.Hour)
+	m.mu.Lock()
+	m.plan[0] = []string{"slow-add"}
+	m.mu.Unlock()
+	var vp func() *vt.Pipe
+	if sp.Sides[0] == "listen" {
+		L := vt.L(name)
+		if err := s.Listen(vt.Addr(name)); err != nil {
+			c.Inconclusive("setup: %v", err)
+			return
+		}
+		p := L.Connect()
+		vp = func() *vt.Pipe { return p }
+	} else {
+		D := vt.D(name)
+		D.SetDefault(vt.Outcome{Kind: vt.Succeed})
+		s.SetOption(mangos.OptionDialAsynch, true)
+		if err := s.Dial(vt.Addr(name)); err != nil {
+			c.Inconclusive("setup: %v", err)
+			return
+		}
+		vp = D.LastPipe
+	}
+	k := mon.Go("in-AddPipe", func() (interface{}, error) { <-m.slowAdd; return nil, nil })
+	if !c.AwaitOrViolate("harness:slow-add-not-reached", "the new connection reaching the protocol's AddPipe", k.Done, mon.AwaitOpts{}) {
+		return
+	}
+	mon.Sleep(time.Duration(c.Rand.Intn(2500)) * time.Microsecond)
+	ck := mon.Go("Close", func() (interface{}, error) { return nil, s.Close() })
+	if !c.AwaitOrViolate("life/close-stuck", "Socket.Close racing a connection inside the protocol's AddPipe", ck.Done, mon.AwaitOpts{}) {
+		return
+	}
+	m.final(true)
+	if p := vp(); p != nil && !c.Failed() {
+		c.AwaitOrViolate("life/connection-kept-after-close", "the connection that was inside AddPipe when the socket closed being closed by the library", p.LibClosed, mon.AwaitOpts{})
+	}
+	c.Nontrivial()
+	c.Sig("closerace|%s|%s", sp.Protos[0], sp.Sides[0])
+}
+
 // ---------------------------------------------------------------------------
 // real transports: server with scripted hook, client redialling
 
@@ -751,7 +819,19 @@ func runOpts(c *mon.Case, sp spec) {
 		}
 	})
 	_, _ = ws, wc
+	// ipc reports the peer's credentials: make user and group ids differ while the endpoints are made
+	// (possible as root only), so that a mixed-up field cannot be right by coincidence
+	wantGid := os.Getegid()
+	if sp.Tran == "ipc" && os.Geteuid() == 0 {
+		if err := syscall.Setegid(4242); err == nil {
+			wantGid = 4242
+			defer syscall.Setegid(os.Getgid())
+		}
+	}
 	l, d, err := hx.Connect(srv, cli, sp.Tran)
+	if wantGid == 4242 {
+		syscall.Setegid(os.Getgid())
+	}
 	if err != nil {
 		c.Inconclusive("setup: %s: %v", sp.Tran, err)
 		return
@@ -835,8 +915,8 @@ func runOpts(c *mon.Case, sp spec) {
 			pid, e1 := get(p, mangos.OptionPeerPID)
 			uid, e2 := get(p, mangos.OptionPeerUID)
 			gid, e3 := get(p, mangos.OptionPeerGID)
-			if e1 != nil || e2 != nil || e3 != nil || pid != os.Getpid() || uid != os.Geteuid() || gid != os.Getegid() {
-				bad("peer-credentials", "%s pipe: PEER-PID/UID/GID = %v/%v/%v (%v %v %v), want %d/%d/%d", side, pid, uid, gid, e1, e2, e3, os.Getpid(), os.Geteuid(), os.Getegid())
+			if e1 != nil || e2 != nil || e3 != nil || pid != os.Getpid() || uid != os.Geteuid() || gid != wantGid {
+				bad("peer-credentials", "%s pipe: PEER-PID/UID/GID = %v/%v/%v (%v %v %v), want %d/%d/%d", side, pid, uid, gid, e1, e2, e3, os.Getpid(), os.Geteuid(), wantGid)
 			}
 			c.Count("option_checks", 3)
 		}
